@@ -21,6 +21,8 @@ import time
 VERIF = os.path.dirname(os.path.dirname(os.path.abspath(__file__)))
 SCRATCH = "/tmp/verif-mut/repo"
 
+SC = ["C01", "C02", "C03", "C04", "C09", "C13", "C14", "C15"]
+RS = ["C05", "C06", "C07", "C08", "C10", "C11", "C12", "C16", "C17", "C18", "C19", "C20"]
 ROR = [(" == ", " != "), (" != ", " == "), (" < ", " <= "), (" <= ", " < "), (" > ", " >= "), (" >= ", " > ")]
 LCR = [(" && ", " || "), (" || ", " && ")]
 
@@ -113,6 +115,7 @@ def main():
     args = sys.argv[2:]
     mx, seed, ops, extra = 40, 1, "ROR,LCR,NEG,AOR,DEL", []
     retest = False
+    cross = "--cross" in args
     i = 0
     while i < len(args):
         if args[i] == "--max":
@@ -178,6 +181,18 @@ def main():
                 status = "survived"
             else:
                 status = "nocompile" if "does not compile" in r.stdout or "facts:" in r.stdout else "error"
+            killed_by = pid if status == "killed" else None
+            if status == "survived" and cross:
+                fam = SC if pid in SC else RS
+                for other in fam:
+                    if other == pid:
+                        continue
+                    r2 = sh([sys.executable, os.path.join(VERIF, "check"), other, "--tier", "quick"], cwd=VERIF, env=env)
+                    if r2.returncode == 1 and "VIOLATION" in r2.stdout:
+                        status, killed_by = "killed", other
+                        viol = [l.strip() for l in r2.stdout.splitlines() if l.startswith("  rule=")]
+                        break
+            m["killed_by"] = killed_by
             m2 = dict(m)
             m2.update(status=status, src=src.strip()[:160], wall=round(time.time() - t0, 1), reported=[v[:200] for v in viol[:2]])
             if status == "error":
